@@ -110,41 +110,45 @@ Definition pn_build_number (st : pnst) : option N :=
       end
   end.
 
-Definition pn_feed1 (st : pnst) (m : structured) : outcome (pnst * option pnmsg) :=
+Definition pn_feed1_core (st : pnst) (m : structured) : pnst * option pnmsg :=
   match m with
   | SControlChange channel cn v =>
       match cn with
-      | 98 => Ok (mkPNSt (s_number_msb st) (Some v) false None, None)
-      | 99 => Ok (mkPNSt (Some v) (s_number_lsb st) false None, None)
-      | 100 => Ok (mkPNSt (s_number_msb st) (Some v) true None, None)
-      | 101 => Ok (mkPNSt (Some v) (s_number_lsb st) true None, None)
-      | 38 => Ok (mkPNSt (s_number_msb st) (s_number_lsb st) (s_is_registered st) (Some v), None)
+      | 98 => (mkPNSt (s_number_msb st) (Some v) false None, None)
+      | 99 => (mkPNSt (Some v) (s_number_lsb st) false None, None)
+      | 100 => (mkPNSt (s_number_msb st) (Some v) true None, None)
+      | 101 => (mkPNSt (Some v) (s_number_lsb st) true None, None)
+      | 38 => (mkPNSt (s_number_msb st) (s_number_lsb st) (s_is_registered st) (Some v), None)
       | 6 =>
           match pn_build_number st with
-          | None => Ok (st, None)
+          | None => (st, None)
           | Some number =>
-              Ok (st, Some (match s_value_lsb st with
-                            | Some l => pn_fourteen_bit channel number (build_14 v l)
-                                          (s_is_registered st)
-                            | None => pn_seven_bit channel number v (s_is_registered st) DataEntry
-                            end))
+              (st, Some (match s_value_lsb st with
+                         | Some l => pn_fourteen_bit channel number (build_14 v l)
+                                       (s_is_registered st)
+                         | None => pn_seven_bit channel number v (s_is_registered st) DataEntry
+                         end))
           end
       | 96 =>
           match pn_build_number st with
-          | None => Ok (st, None)
+          | None => (st, None)
           | Some number =>
-              Ok (st, Some (pn_seven_bit channel number v (s_is_registered st) DataIncrement))
+              (st, Some (pn_seven_bit channel number v (s_is_registered st) DataIncrement))
           end
       | 97 =>
           match pn_build_number st with
-          | None => Ok (st, None)
+          | None => (st, None)
           | Some number =>
-              Ok (st, Some (pn_seven_bit channel number v (s_is_registered st) DataDecrement))
+              (st, Some (pn_seven_bit channel number v (s_is_registered st) DataDecrement))
           end
-      | _ => Ok (st, None)
+      | _ => (st, None)
       end
-  | _ => Ok (st, None)
+  | _ => (st, None)
   end.
+
+(** [ScannerForOneChannel::feed] has no panic site *)
+Definition pn_feed1 (st : pnst) (m : structured) : outcome (pnst * option pnmsg) :=
+  Ok (pn_feed1_core st m).
 
 Definition pn_reset1 (st : pnst) : pnst := pnst_init.
 
